@@ -5,14 +5,15 @@ import PdModel.Proto
 * `line <u:line>`                       → `ok <u:name> <u:typ> <prio> <u:location> <u:display>` | `ValueError` | `IndexError`
 * `parse <u:base> <u:payload>`          → `<ok|IndexError> | <links> | <log>`
 * `strip <b:hex>`                       → `b:<hex>` (the bytes handed to zlib)
-* `session (U <u:url> <N|b:hex> <Z|D|T:u:text> | Q <u:name>)*`
+* `session (U <u:url> <N|b:hex> <Z|P:b:hex|C:b:hex> | Q <u:name>)*`
       `update` and `getLink` calls on one `SphinxInventory`, in the given order; the zlib/UTF-8
-      outcome of each update is given by the caller (Z = zlib.error, D = UnicodeError, T = decoded text)
+      inflater's result for each update is given by the caller (Z = zlib.error, P = output with eof False, C = output
+      with eof True); decoding is the model's own `utf8Decode`
                                         → `(<b:payload>:<ok|Exc> | q=<answer>)… | <links> | <log>`
 * `header <u:project> <u:version>`     → `b:<hex>` (the bytes of `_generateHeader`)
 * `maxage <u:s>`                        → `ok <u:unit> <amount>` | `InvalidMaxAge`
 * `preparecache <clear 0|1> <enable 0|1> <R|M|E = rmtree removed/missing/other error> <u:maxAge>` → `plain` | `caching <seconds>` | `OSError` | `InvalidMaxAge`
-* `fetch (F <u:url> <C:b:hex|E|B> <Z|D|T:u:text>)*` → `<ok|BaseException> | <links> | <log>`
+* `fetch (F <u:url> <C:b:hex|E|B> <Z|P:b:hex|C:b:hex>)*` → `<ok|BaseException> | <links> | <log>`
 * `xref <N|u:objForFullName> <u:expandName> <N|u:context result> <u:identifier> <k=b=l>*` → `internal u:… | external u:… | unresolved`
 * `linkto <N|u:resolveName> <u:expandName> <u:identifier> <k=b=l>*`  → same
 * `role <DOCUMENTABLEKIND>`              → `u:py:<type>`
@@ -126,11 +127,13 @@ def showOpt : Option Str → String
   | none => "None"
   | some s => Proto.encodeStr s
 
-inductive ZRes | zerr | derr | text (t : Str)
-
-def parseZ (tok : String) : Option ZRes :=
-  if tok == "Z" then some .zerr else if tok == "D" then some .derr
-  else if tok.startsWith "T:" then (Proto.decodeStr (tok.drop 2).toString).map .text else none
+/-- what the real inflater did with the payload, as observed by the harness: `Z` = zlib.error,
+`P:b:<hex>` = returned <hex> with eof False (stream ends early), `C:b:<hex>` = returned <hex>, eof True -/
+def parseZ (tok : String) : Option Inflate :=
+  if tok == "Z" then some .rejected
+  else if tok.startsWith "P:" then (decodeBytes (tok.drop 2).toString).map (Inflate.done · false)
+  else if tok.startsWith "C:" then (decodeBytes (tok.drop 2).toString).map (Inflate.done · true)
+  else none
 
 def parseData (tok : String) : Option (Option Bytes) :=
   if tok == "N" then some none else (decodeBytes tok).map some
@@ -144,8 +147,8 @@ def parseSteps : Nat → List String → Option (List (Step × String))
     let url ← Proto.decodeStr u
     let data ← parseData d
     let zr ← parseZ z
-    let unzip : Bytes → Option Bytes := fun _ => match zr with | .zerr => none | _ => some []
-    let decode : Bytes → Option Str := fun _ => match zr with | .text t => some t | _ => none
+    let unzip : Bytes → Inflate := fun _ => zr
+    let decode : Bytes → Option Str := utf8Decode
     let shown := match data with
       | some (b :: bs) => if (rsplitSlash url).isSome then encodeBytes (strippedPayload (b :: bs)) else "-"
       | _ => "-"
@@ -176,8 +179,8 @@ def parseFetches : Nat → List String → Option (List Fetch)
     let session ← (if sr == "E" then some SessionResult.exception else if sr == "B" then some .baseException
       else if sr.startsWith "C:" then (decodeBytes (sr.drop 2).toString).map .content else none)
     let zr ← parseZ z
-    let unzip : Bytes → Option Bytes := fun _ => match zr with | .zerr => none | _ => some []
-    let decode : Bytes → Option Str := fun _ => match zr with | .text t => some t | _ => none
+    let unzip : Bytes → Inflate := fun _ => zr
+    let decode : Bytes → Option Str := utf8Decode
     let more ← parseFetches f rest
     some (⟨url, session, unzip, decode⟩ :: more)
   | _, _ => none
